@@ -158,11 +158,11 @@ pub fn run_c02_job(job: &Job, cfg: &ExploreCfg) -> PairOut {
 
 pub fn run_c02(ctx: &Ctx) -> Coverage {
     let mut items = corpus::all_items();
-    items.extend(crate::gen::lark_family(ctx.tier.pick(3, 4)));
+    items.extend(crate::gen::lark_family(ctx.tier.pick(4, 5)));
     let kinds: Vec<VKind> = if ctx.quick() { vec![VKind::Multi2, VKind::Multi3] } else { vec![VKind::Multi2, VKind::Multi3, VKind::Tik(400)] };
     let jobs = make_jobs(&items, &kinds);
-    let depth = ctx.tier.pick(4, 8);
-    let max_states = ctx.tier.pick(500, 8000);
+    let depth = ctx.tier.pick(6, 10);
+    let max_states = ctx.tier.pick(3000, 30000);
     run_jobs(ctx, &jobs, |job| {
         let big = job.vocab.n() > 200;
         let cfg = ExploreCfg { max_depth: if big { 3 } else { depth }, max_states: if big { max_states / 10 } else { max_states }, use_key: true };
@@ -339,6 +339,9 @@ fn c10_items() -> Vec<corpus::Item> {
         ("sl-lark-num", "start: N \"x\" N\nN: /[0-9]{1,4}/", vec!["12x3456"]),
         ("sl-lark-andnot", "start: T \".\"\nT: /[a-z]+/ & ~/.*ab.*/", vec!["bacb."]),
         ("sl-lark-lazy", "start: h \"!\"\nh[lazy]: /[a-z]*x/", vec!["abx!"]),
+        // lexemes that subsume one sibling slice but not the other while tokens of the other are allowed (see also corpus no-cr, comment, text-tab)
+        ("sl-lark-dig-ac", "start: W \";\"\nW: /[0-9a-c]+/", vec!["0a1b;", "ab12c;"]),
+        ("sl-lark-az-dig3", "start: W \";\"\nW: /[a-z]+[0-9]{0,3}/", vec!["ab12;", "abc;"]),
     ];
     for (n, g, s) in larks {
         items.push(corpus::Item { name: n.to_string(), g: GrammarSpec::Lark(g.to_string()), sentences: s.iter().map(|x| x.as_bytes().to_vec()).collect(), core: true });
@@ -353,9 +356,16 @@ pub fn run_c10(ctx: &Ctx) -> Coverage {
     }
     let kinds: Vec<VKind> = if ctx.quick() { vec![VKind::Multi3] } else { vec![VKind::Multi2, VKind::Multi3, VKind::Tik(800)] };
     let jobs = make_jobs(&items, &kinds);
-    let lists = slice_lists(ctx.tier.pick(1, 3));
-    let depth = ctx.tier.pick(4, 7);
-    let max_states = ctx.tier.pick(250, 3000);
+    let mut lists = slice_lists(ctx.tier.pick(1, 3));
+    if ctx.quick() {
+        // sibling and nested pairs (the thorough tier has every ordered pair of the menu)
+        for (a, b) in [("[a-z]+", "[0-9]+"), ("[0-9]+", "[a-z]+"), ("[a-cx]+", "[0-9]+"), ("[a-z]+", "[a-z]{1,2}"), ("[ \\n\\t]+", "[a-z]+"), ("[a-z]+", "[ \\n\\t]+")] {
+            lists.push(Slices::List(vec![a.to_string(), b.to_string()]));
+        }
+        lists.push(Slices::List(vec!["[ \\n\\t]+".to_string(), "[a-z]{1,2}".to_string(), "[a-z]+".to_string(), "[0-9]+".to_string()]));
+    }
+    let depth = ctx.tier.pick(6, 9);
+    let max_states = ctx.tier.pick(1500, 12000);
     let pairs: Vec<(usize, usize)> = (0..jobs.len()).flat_map(|j| (0..lists.len()).map(move |l| (j, l))).collect();
     run_jobs(ctx, &pairs, |(j, l)| {
         let job = &jobs[*j];
